@@ -28,6 +28,9 @@ pub enum Kind {
     Num { depth: u32, lits: usize },
     /// comparisons of numeric expressions (depth d_num), combined d_bool levels
     Bools { d_num: u32, d_bool: u32, lits: usize },
+    /// `a op L` and `L op a` for a set of literal constants per type (strength
+    /// reduction of multiplication / division / remainder by constants)
+    ConstOperand,
     /// operand snapshots: `x op { x = b; 1 }` must use the OLD x (all operators)
     Snapshot,
     /// depth-2 numeric expressions with one leaf operand at the root
@@ -76,6 +79,11 @@ pub fn families(tier: Tier) -> Vec<Family> {
             ret: Ty::Bool,
             kind: Kind::Bools { d_num: 0, d_bool: 1, lits: 1 },
         });
+    }
+    for it in INT_TYS {
+        let t = Ty::Int(it);
+        v.push(Family { name: format!("const-operand/{}", t.print()), t: t.clone(), ret: t.clone(), kind: Kind::ConstOperand });
+        v.push(Family { name: format!("const-operand-cmp/{}", t.print()), t: t.clone(), ret: Ty::Bool, kind: Kind::ConstOperand });
     }
     for t in num_tys() {
         v.push(Family { name: format!("snapshot/{}", t.print()), t: t.clone(), ret: t.clone(), kind: Kind::Snapshot });
@@ -130,6 +138,35 @@ pub fn programs(f: &Family, cfg: &Cfg) -> Vec<Program> {
         Kind::Bools { d_num, d_bool, lits } => {
             let lv = leaves(&f.t, &literals(&f.t, *lits));
             bool_exprs(&f.t, *d_num, *d_bool, &lv).into_iter().map(single).collect()
+        }
+        Kind::ConstOperand => {
+            let Ty::Int(it) = f.t else { unreachable!() };
+            let w = it.bits();
+            let lim = if w == 64 { i64::MAX as i128 } else { it.max_val() };
+            let mut lits: Vec<i128> = vec![0, 1, 2, 3, 4, 5, 6, 7, 8, 9, 10, 12, 15, 16, 17, 25, 31, 32, 33, 60, 63, 64, 100, 127];
+            for k in [7u32, 8, 15, 16, 31, 32, 63] {
+                if k < w {
+                    lits.extend([(1i128 << k) - 1, 1i128 << k, (1i128 << k) + 1]);
+                }
+            }
+            lits.extend([lim, lim - 1, lim / 2, lim / 3, 1000, 10000, 1000000, 1000000007]);
+            lits.retain(|x| *x >= 0 && *x <= lim);
+            lits.sort();
+            lits.dedup();
+            let ops: Vec<BinOp> = if f.ret == Ty::Bool { CMP.to_vec() } else { ARITH.to_vec() };
+            let mut out = vec![];
+            for op in ops {
+                for l in &lits {
+                    // suffixed, so that the literal's type never depends on inference
+                    let lit = E::Int(*l, Some(it), it);
+                    out.push(single(bin(op, var("a"), lit.clone())));
+                    out.push(single(bin(op, lit.clone(), var("a"))));
+                    if it.signed() && *l > 0 {
+                        out.push(single(bin(op, var("a"), E::Neg(Box::new(lit.clone())))));
+                    }
+                }
+            }
+            out
         }
         Kind::Snapshot => {
             let one = literals(&f.t, 1)[0].clone();
@@ -203,6 +240,24 @@ pub fn programs(f: &Family, cfg: &Cfg) -> Vec<Program> {
 pub mod templates;
 
 pub fn family_inputs(f: &Family, tier: Tier) -> Vec<(V, V)> {
+    if let (Kind::ConstOperand, Ty::Int(it)) = (&f.kind, &f.t) {
+        let mut vals: Vec<i128> = if it.bits() == 8 {
+            (it.min_val()..=it.max_val()).collect()
+        } else {
+            let mut v = it.boundary();
+            for k in [1i128, 3, 5, 7, 9, 10, 11, 15, 16, 17, 99, 100, 101, 127, 128, 129, 255, 256, 257, 999, 1000, 1001, 65535, 65536, 65537, 1000000006, 1000000007, 1000000008] {
+                for x in [k, -k] {
+                    if x >= it.min_val() && x <= it.max_val() {
+                        v.push(x);
+                    }
+                }
+            }
+            v
+        };
+        vals.sort();
+        vals.dedup();
+        return vals.into_iter().map(|a| (V::Int(*it, a), V::Int(*it, 1))).collect();
+    }
     let one: Vec<V> = match (&f.kind, &f.t) {
         (Kind::Table, Ty::Int(it)) => (it.min_val()..=it.max_val()).map(|v| V::Int(*it, v)).collect(),
         (Kind::Skel { .. }, Ty::Int(it)) => {
